@@ -134,3 +134,28 @@ def delaying_weight(birth, pers, log=None, n=1.0):
         with open(log, "a") as f:
             f.write("%d %d %.6f %.6f %r\n" % (os.getpid(), threading.get_ident(), t0, t1, tag))
     return np.asarray(pers, float) ** n
+
+
+def gen_large(rng):
+    """a configuration of realistic size: thousands of pairs (cubical persistence, big point clouds) on a grid of up to
+    160x160 pixels, with a kernel that factors over the axes (so that the oracle is affordable).  returns
+    (geometry kwargs, kernel kwargs, kernel description, weight kwargs, weight function, (n,2) birth-persistence points)"""
+    nb, npx = int(rng.integers(30, 161)), int(rng.integers(30, 161))
+    ps = float(rng.choice([0.01, 0.02, 0.05, 0.1]))
+    b0 = float(rng.choice([0.0, 0.0, -1.0, 0.5])); p0 = float(rng.choice([0.0, 0.0, 0.1]))
+    geom = {"birth_range": (b0, b0 + nb * ps), "pers_range": (p0, p0 + npx * ps), "pixel_size": ps}
+    while True:
+        kkw, kd = gen_kernel(rng, ps)
+        if kd["kind"] != "gaussian" or kd["cov"][0][1] == 0.0:
+            break
+    while True:
+        wkw, wfun, nonneg = gen_weight(rng)
+        if nonneg:
+            break
+    n = int(rng.integers(2000, 9001))
+    b = rng.uniform(b0 - 2 * ps, b0 + (nb + 2) * ps, n)
+    p = np.abs(rng.normal(0, 0.4 * npx * ps, n)) + (p0 if rng.random() < 0.5 else 0.0)
+    if rng.random() < 0.3:          # integer-like data: many coincident pairs
+        q = ps * float(rng.choice([0.5, 1.0, 2.5]))
+        b, p = np.round(b / q) * q, np.round(p / q) * q
+    return geom, kkw, kd, wkw, wfun, np.column_stack([b, p])
